@@ -254,7 +254,15 @@ class ConnectionPool(object):
             except KeyError:
                 return
             else:
-                yield from release_task
+                try:
+                    # The check in belongs to another client. It must not
+                    # be aborted if the client waiting here is cancelled.
+                    yield from asyncio.shield(release_task)
+                except asyncio.CancelledError:
+                    if not release_task.done():
+                        self._release_tasks.add(release_task)
+
+                    raise
 
     @asyncio.coroutine
     def session(self, host: str, port: int, use_ssl: bool=False):
